@@ -21,7 +21,7 @@ APPEND = {
 
 # harness -> (properties, complete?, description)
 HARNESSES = {
-    'k_keycode_to_char': (['C01', 'C02', 'C03', 'C04', 'C19'], True, 'keycode_to_char == riti.h table for all 65536 codes; ASCII, non-NUL'),
+    'k_keycode_to_char': (['C01', 'C02', 'C03', 'C04', 'C15', 'C18', 'C19'], True, 'keycode_to_char == riti.h table for all 65536 codes; ASCII, non-NUL'),
     'k_modifiers_plane': (['C04'], True, 'LayoutModifiers::from(get_modifiers(m)) for all 256 modifier bytes'),
     'k_ffi_config_lifecycle': (['C19'], True, 'config handle: non-null, two arbitrary setter calls, getters == model, free'),
     'k_ffi_null_free': (['C19'], True, 'freeing null handles / null string is a no-op'),
